@@ -260,7 +260,7 @@ func (s *Service) provisionPipeline(ctx context.Context, cfg config.Pipeline) er
 
 	// config-file provisioning tags pipelines as ProvisionTypeConfig so they are
 	// reconciled (and removed if they disappear from the config files) on restart.
-	err = s.importPipeline(importCtx, cfg, pipeline.ProvisionTypeConfig)
+	executed, err := s.importPipelineActions(importCtx, cfg, pipeline.ProvisionTypeConfig)
 	if err != nil {
 		return cerrors.Errorf("could not import pipeline: %w", err)
 	}
@@ -268,6 +268,8 @@ func (s *Service) provisionPipeline(ctx context.Context, cfg config.Pipeline) er
 	// commit db transaction
 	err = txn.Commit()
 	if err != nil {
+		// see transactionalImport: undo the in-memory effects as well
+		s.undoImport(importCtx, executed)
 		return cerrors.Errorf("could not commit db transaction: %w", err)
 	}
 
